@@ -86,7 +86,7 @@ def r_guard(A, ctx, scope, rule="R-GUARD"):
             m = {}
             for tt, vv in pairs:
                 tv = _full_slice_store(tt)
-                if tv in watch and isinstance(vv, ast.Name):
+                if tv is not None and isinstance(vv, ast.Name):
                     m[tv] = vv.id
             if m:
                 sites.append((nd, m))
@@ -100,6 +100,9 @@ def r_guard(A, ctx, scope, rule="R-GUARD"):
             groups.setdefault(key, dict(guard=g, stores={}, nodes=[]))
             groups[key]["stores"].update(m)
             groups[key]["nodes"].append(nd)
+        for key, grp in list(groups.items()):
+            if not (set(grp["stores"]) & watch):
+                del groups[key]      # bulk copies unrelated to the iterate
         for key, grp in groups.items():
             n += 1
             nd0 = grp["nodes"][0]
@@ -350,6 +353,20 @@ def r_step(A, ctx, scope, rule="R-STEP"):
                                 and isinstance(st.value, ast.Call) and st.value is c:
                             what = (f"prox result stored at `{norm_src(st.targets[0])}` but "
                                     f"read from `{norm_src(src)}`")
+                # the coordinate handed to the prox must be an element of the working set
+                # (second variable of `for idx, j in enumerate(ws)` / `for j in ws`), never
+                # the position inside it: penalties index per-feature weights with it
+                if what is None and k is not None:
+                    first_vars = set()
+                    for lp in ast.walk(f.node):
+                        if isinstance(lp, ast.For) and isinstance(lp.iter, ast.Call) \
+                                and ast.unparse(lp.iter.func) == "enumerate" \
+                                and isinstance(lp.target, ast.Tuple) and isinstance(lp.target.elts[0], ast.Name):
+                            first_vars.add(lp.target.elts[0].id)
+                    if k in first_vars:
+                        what = (f"`{norm_src(c)[:80]}` passes `{k}`, the *position* in the working "
+                                f"set, as the coordinate: weighted penalties then use the weight "
+                                f"of feature number `{k}` instead of feature `{partner.get(k)}`")
                 ctx.ob(rule, ckey, what is None, what=what, loc=loc(f, c))
     ctx.floor(rule, n, scope.get("floor", 12))
 
